@@ -213,6 +213,8 @@ def _norm_sig(t):
     t = re.sub(r"\.(clone|to_owned|as_ref|as_deref|borrow|cloned|copied)\(\)", "", t)
     # a local of the enclosing fn, whether it was bound by `let x = ..` (rendered `v?`) or by a pattern (`b0`, `b1`), is just "a local"
     t = re.sub(r"\bb\d+(_\d+)?\b", "v", t).replace("v?", "v")
+    # block braces and a `let` that only names a sub-expression do not distinguish adapters either
+    t = t.replace("{", "").replace("}", "")
     return t
 
 
@@ -230,7 +232,11 @@ def droppers_inventory(facts, rep, rid, fn_suffixes, audited, what):
             cal = fb.callee(x) or ""
             if not cal.startswith(("std::iter::", "core::iter::", "itertools::", "std::vec::", "alloc::vec::", "core::slice::", "rayon::", "std::collections::VecDeque")):
                 continue
-            arg = fb.show_canon(f, x["args"][0], maxdepth=30, inline=0).replace(" ", "")[:110] if x["args"] else ""
+            # locals bound inside the adapter's own closure are read through (`|p| { let id = p.first_id(); f(id) }` = `|p| f(p.first_id())`);
+            # locals of the enclosing fn stay opaque
+            inner = set(lid for y in fb.walk(x["args"][0]) if y.get("k") == "let" for _n, lid in fb.pat_bindings(y.get("pat"))) if x["args"] else set()
+            arg = fb.show_canon(f, x["args"][0], maxdepth=30, inline=4 if inner else 0, inline_only=inner).replace(" ", "")[:140] if x["args"] else ""
+            arg = re.sub(r"let[A-Za-z0-9_?]+=[^;]*;", "", arg)
             sig = _norm_sig("%s(%s)" % (x["name"], arg))
             k_ = seen.get(sig, 0)
             seen[sig] = k_ + 1
